@@ -18,6 +18,11 @@ DENSE = {
     'C05': dict(n=3, space=36 * 4 * 216, per=30),
 }
 DENSE_RATE = dict(quick=0.08, thorough=0.35)
+TAIL = dict(add_expr=0.4, to_expr=0.3, support=0.3, count=0.3, pick=0.3, copy=0.4, dump=0.3, load=0.4,
+            manager_roundtrip=0.15, image=0.3, declare=0.4, undeclare=0.3, declare_many=0.15, sizes=0.3,
+            to_nx=0.2, dump_dot=0.2, traverse=0.3, fop=0.4, reject=0.4, fork=0.15, probe=0.4, redo=0.4,
+            quant=0.4, let=0.4, cube=0.3, find_or_add=0.3, eqcheck=0.3, mdd=0.2, bdd_to_mdd=0.05, dddmp=0.05,
+            pairs=0.2, reorder=0.3, swap=0.4, gc=0.4)
 
 _w = gen._w
 
@@ -143,6 +148,12 @@ def _make_cfg(prop, seed, tier='quick', idx=0):
     for k in optional:
         if r.random() < 0.18:
             weights[k] = 0
+    # a thin tail of everything else, so that any operation can interleave
+    # with the profile's focus (cross-feature histories)
+    if r.random() < 0.7:
+        for k, wt in TAIL.items():
+            if weights.get(k, 0) == 0 and k in gen.GEN:
+                weights[k] = wt
     # the profile's heavy hitters survive most of the time
     heavy = sorted(P['weights'], key=lambda k: -P['weights'][k])[:3]
     for k in heavy:
